@@ -355,6 +355,9 @@ fn run(line: &str) -> CaseResult {
     if r.trace.iter().any(|t| t.starts_with('!')) {
         res.tags.push("fairness-delivery".into());
     }
+    if case.reqs.len() > 16 {
+        res.tags.push("pipeline>16".into());
+    }
     if log.wire_read > 131072 {
         res.tags.push("read-cap".into());
     }
@@ -845,6 +848,83 @@ fn gen_handover(rng: &mut Rng) -> String {
     t.join(" ")
 }
 
+/// pipeline flavour: 17..40 tiny requests; the first handler usually waits so that the queue
+/// fills to MAX_PIPELINED_MESSAGES, the remaining requests arrive in a later read while the queue
+/// is full (they stay undecoded in read_buf), then all handlers are Ready at first poll (or
+/// Pending once) and the peer only waits / half-closes
+fn gen_pipeline(rng: &mut Rng) -> String {
+    let mut t: Vec<String> = Vec::new();
+    if rng.chance(1, 3) {
+        t.push("ka=5".into());
+    }
+    if rng.chance(1, 6) {
+        t.push("hc=0".into());
+    }
+    let n = rng.range(17, 40);
+    let mut lens = Vec::new();
+    for i in 0..n {
+        let hl = min_head_len(i, &ReqBody::None) + rng.below(8);
+        let hs = if i == 0 {
+            *rng.pick(&["q", "q", "q", "q", "qq", "qp", "-", "p"])
+        } else if rng.chance(1, 60) {
+            // rarely: a handler that is Pending once re-enters `poll_request` from `poll_response`
+            "p"
+        } else {
+            "-"
+        };
+        let resp = *rng.pick(&["Z", "Z", "N", "S3", "C2"]);
+        t.push(format!("Q:{}:n:{}:{}", hl, hs, resp));
+        lens.push(hl);
+    }
+    let total: usize = lens.iter().sum();
+    if rng.chance(1, 4) {
+        // everything in one read (the decode loop overshoots the limit: all requests are queued)
+    } else {
+        let lo = if rng.chance(1, 5) { 16 } else { 17 };
+        let k = rng.range(lo, 20).min(n - 1);
+        let first: usize = lens[..k].iter().sum();
+        t.push(format!("R{}", first));
+        t.push("RP".into());
+        if rng.chance(1, 4) {
+            let k2 = rng.range(k, n - 1);
+            let second: usize = lens[k..k2].iter().sum();
+            if second > 0 {
+                t.push(format!("R{}", second));
+                t.push("RP".into());
+            }
+        }
+    }
+    // the rest of the wire, then: silent peer / half-close after a pause / half-close at once /
+    // (nothing: EOF when the script is exhausted)
+    t.push(format!("R{}", total));
+    match rng.below(5) {
+        0 | 1 => t.push("RZ".into()),
+        2 => {
+            t.push("RP".into());
+            t.push("RE".into())
+        }
+        3 => t.push("RE".into()),
+        _ => {}
+    }
+    for _ in 0..rng.below(3) {
+        t.push(match rng.below(3) {
+            0 => "WP".into(),
+            1 => "FP".into(),
+            _ => format!("W{}", rng.range(1, 300)),
+        });
+    }
+    let n_ev = rng.below(5);
+    if n_ev > 0 {
+        let letters = "rrhhw";
+        let mut e: String = (0..n_ev).map(|_| letters.as_bytes()[rng.below(letters.len())] as char).collect();
+        if rng.chance(2, 3) {
+            e = format!("rh{}", e);
+        }
+        t.push(format!("E:{}", e));
+    }
+    t.join(" ")
+}
+
 fn gen(ctx: &Ctx) -> Vec<String> {
     let mut rng = Rng::new(ctx.seed);
     let mut cases = Vec::new();
@@ -859,6 +939,7 @@ fn gen(ctx: &Ctx) -> Vec<String> {
             _ => 4,
         };
         cases.push(match flavour {
+            _ if i % 20 == 13 => gen_pipeline(&mut rng),
             4 => gen_backpressure(&mut rng),
             5 => gen_handover(&mut rng),
             _ => gen_case(&mut rng, flavour),
